@@ -165,6 +165,15 @@ def run(ctx):
     ctx.ob('C07.to_string-encoder', 'Constant.get_string', not bad,
            f'Constant({bad[0][0]!r}).to_string() is {bad[0][1]}, which the library\'s own lexer does not read back as one literal with that '
            f'value' if bad else '', file=site[0], line=site[1])
+    # ... and by the library's own decoder (C04's table: every string token's decoder, interpreted, applied to what the printer writes)
+    from .. import core as _core
+    sub4 = _core.Ctx('C04', ctx.src, ctx.tier)
+    C04.check_strings(sub4)
+    ctx.setcount('readback_rows', len(sub4.constructs))
+    ctx.floor('readback_rows', 6)
+    ctx.ob('C07.to_string-readback', 'all', True, '')
+    for f in sub4.findings:
+        ctx.ob('C07.to_string-readback', f.key, False, f.msg, file=f.file, line=f.line, witness=f.witness)
     model = model_for(ctx.src)
     nrepr = 0
     for ci in model.subclasses('ASTNode'):
